@@ -23,6 +23,8 @@ def jobs(tier):
         J('h_resp_cmdt', L=260, windows=255, limit=7, gap='1/100')
         J('h_orig_bam', L=260, eps_sym=False)
         J('h_resp_bam', L=300, gap='1/20')
+    # paced connection-mode transfer (minimum_tp_rts_cts_dt_interval) against a peer that grants less than remains
+    J('h_orig_cmdt', L=29, interval='1/100')
     # a responder may hold the connection open for longer than T3 in total (every hold CTS restarts the wait)
     J('h_orig_cmdt', L=15, holds=[3])
     J('h_orig_cmdt', L=15, holds=[0, 3])
